@@ -62,6 +62,21 @@ def _x(ctx, v):
     return v
 
 
+def _ex(ctx, arr):
+    """symbolic run: concrete doubles enter the projection as the exact rationals they are, so that the projected
+    coordinates are exact too (float * Fraction would round, and a one-ulp difference shows up as an unreproducible
+    tie between the code's distance and the oracle's)"""
+    if not ctx.sym:
+        return arr
+    a = np.asarray(arr)
+    if a.dtype == object:
+        return arr
+    out = np.empty(a.shape, dtype=object)
+    for idx in np.ndindex(*a.shape):
+        out[idx] = Fraction(float(a[idx]))
+    return out
+
+
 def _general_position(ctx, qe, qn, pts, scale=(1, 1)):
     d2 = [((qe - _x(ctx, p[0])) * scale[0]) ** 2 + ((qn - _x(ctx, p[1])) * scale[1]) ** 2 for p in pts]
     for i in range(len(pts)):
@@ -158,7 +173,7 @@ def h_median_distance(ctx):
         pb, pd = ctx.real("pb"), ctx.real("pd")
         if not ctx.sym:
             a, c = float(a), float(c)
-        kw["projection"] = lambda x, y: (x * a + pb, y * c + pd)
+        kw["projection"] = lambda x, y: (_ex(ctx, x) * a + pb, _ex(ctx, y) * c + pd)
         sc = (a, c)
     else:
         sc = (1, 1)
@@ -193,7 +208,7 @@ def h_distance_mask(ctx):
         pb, pd = ctx.real("pb"), ctx.real("pd")
         if not ctx.sym:
             a, c = float(a), float(c)
-        kw["projection"] = lambda x, y: (x * a + pb, y * c + pd)
+        kw["projection"] = lambda x, y: (_ex(ctx, x) * a + pb, _ex(ctx, y) * c + pd)
         sc = (a, c)
     d2s = {idx: _general_position(ctx, qe[idx], qn[idx], pts, sc) for idx in np.ndindex(*qsh)}
     if cfg.get("extra"):  # extra (vertical) coordinates on either side are ignored
@@ -229,7 +244,7 @@ def h_mask_grid(ctx):
             pb, pd = ctx.real("pb"), ctx.real("pd")
         if not ctx.sym:
             a, c = float(a), float(c)
-        kw["projection"] = lambda x, y: (x * a + pb, y * c + pd)
+        kw["projection"] = lambda x, y: (_ex(ctx, x) * a + pb, _ex(ctx, y) * c + pd)
         sc = (a, c)
     out = vd.distance_mask((e, n), maxdist, grid=grid, **kw)
     ee, nn = np.meshgrid(ge_, gn)
